@@ -579,6 +579,30 @@ def unit_pcap_bounded():
                     got = f"{type(e).__name__}: {e}"
                 if got != want:
                     dis.append({"input": {"payloads": [p.hex() for p in chunk]}, "detail": f"payloads {[p.hex() for p in chunk]}: passed on {[g.hex() for g in got] if isinstance(got, list) else got}, expected {[w.hex() for w in want]}", "site": "pcapng/marshal.py:tpm_pkgs_from_pcap_file"})
+        # captures that mix link layers: the IP parser refuses an Ethernet frame, the Ethernet parser "accepts" a raw IP packet
+        # and returns garbage - so the parsers must be tried in that order for every packet, whatever worked for the last one
+        from dpkt.dpkt import UnpackError
+
+        good = [bytes.fromhex("80010000000c000001440000"), bytes.fromhex("80010000000a00000000"), bytes.fromhex("80010000000c0000017b0008"), bytes.fromhex("80010000000e000000000002aabb")]
+
+        def ip_parser(raw):
+            if raw[0] == "eth":
+                raise UnpackError("not an IP packet")
+            return Pkg(Pkg(raw[1]))
+
+        def eth_parser(raw):
+            return Pkg(Pkg(Pkg(raw[1]))) if raw[0] == "eth" else Pkg(Pkg(b"\x45\x00garbage" + raw[1][:3]))
+
+        for layout_ in (("ip",) * 4, ("eth",) * 4, ("ip", "ip", "eth", "eth"), ("eth", "eth", "ip", "ip"), ("ip", "eth", "ip", "eth"), ("eth", "ip", "eth", "ip")):
+            total += 1
+            chunk = [(k, p) for k, p in zip(layout_, good)]
+            Pm.dpkt = _t.SimpleNamespace(pcapng=_t.SimpleNamespace(Reader=lambda f, chunk=chunk: [(0.0, c) for c in chunk]), ip=_t.SimpleNamespace(IP=ip_parser), ethernet=_t.SimpleNamespace(Ethernet=eth_parser))
+            try:
+                got = list(Pm.tpm_pkgs_from_pcap_file(object()))
+            except Exception as e:  # noqa
+                got = f"{type(e).__name__}: {e}"
+            if got != good:
+                dis.append({"input": {"link_layers": list(layout_)}, "detail": f"capture with link layers {layout_}: passed on {[g.hex() for g in got] if isinstance(got, list) else got}, expected the four TPM payloads", "site": "pcapng/marshal.py:tpm_pkgs_from_pcap_file"})
     finally:
         Pm.dpkt = saved
     u.bounded.append({"name": "pcap-packets", "bound": "payload lengths 0..24 and 64 x 14 size-field values each, singly and three per file", "evaluations": total, "disagreements": dis[:8], "all_disagreements": len(dis)})
